@@ -29,6 +29,13 @@ CLAIMED.update({
    note="Trusted: reachability/cycle analysis in engine_b::analyse; byte damage is placed inside the define-library form. Which of several reachable causes is reported is left open; after heal/break events outcomes for any mixture of library versions are accepted."),
 })
 
+CLAIMED.update({
+ "C19": dict(engine="isolation-sim", category="exploration", ref="DESIGN.md 4.9",
+   technique="deterministic simulation: a seeded scheduler interleaves the forms of two programs over interpreter instances on one thread, with instance creation as a scheduled event; oracle = solo reference runs of the same real code on fresh threads",
+   text="Seeded program pairs with colliding names (store operations, fault transactions, define-syntax of the same keywords incl. redefinitions of when/unless/cond/let, same-named libraries with different contents, failing imports) interleaved uniformly, in bursts, or one after the other over two instances that live on one thread; 0-3 further instances are created at random points and must evaluate a fixed sanity program like an instance on a fresh thread. Every form's result must equal the result of the same program run alone.",
+   note="Trusted: structural observer; solo runs of the same build as reference (metamorphic, no expected values). Only the one-thread configuration is explored: instances on different threads share no state by construction."),
+})
+
 NOT_APPLICABLE = {
  "C01": "pure function of the program text: no schedule, interleaving, clock, stream or fault for a simulator to own (DESIGN.md 8)",
  "C02": "stack and heap use of one deterministic run as a function of (program, N): resource monitoring of a single execution, nothing scheduled, no fault whose timing matters (DESIGN.md 8)",
@@ -42,7 +49,7 @@ NOT_APPLICABLE = {
  "C16": "pure function of the value (DESIGN.md 8)",
 }
 
-PENDING = {k: "check under construction in this session (claimed by DESIGN.md; will move to checks when its engine is built)" for k in ["C07","C17","C18","C19"]}
+PENDING = {k: "check under construction in this session (claimed by DESIGN.md; will move to checks when its engine is built)" for k in ["C07","C17","C18"]}
 
 def main():
     pending = dict(PENDING)
